@@ -6,7 +6,9 @@ CHECK = dict(
     budget=dict(quick=55, thorough=900), max_runs=dict(quick=100_000, thorough=5_000_000),
     rule=('each evaluation = one simulated run: an index built by the real server with flushes at '
           'scheduler-chosen instants (row size knob 2..50 entries or production, so that script hashes have '
-          'one to dozens of rows, some longer than a compacted row), cleanly shut down; then 1-3 runs of the '
+          'one to dozens of rows, some longer than a compacted row), cleanly shut down - or, in a fifth of the runs, '
+          'killed between a history flush and the matching UTXO flush (the histories such a database stands for '
+          'are the rows up to the UTXO flush count); then 1-3 runs of the '
           'real electrumx_compact_history.compact_history() end to end or of its loop with batch limits from '
           '"one prefix per batch" to "everything in one", each killed at the (k+1)-th durable operation (each '
           'batch commit, the final set_flush_count put), stopped after batch k, or completed; resumed or '
